@@ -379,7 +379,7 @@ var callformPatterns = []string{
 var instantiatedMethodSymbol = regexp.MustCompile(`"\(\*?[^"()]*\[[^"]*\]\)\.[^"]*"`)
 
 type patStats struct {
-	Pairs, Skipped, PairsWithMatch, Matches, BrutePanics int
+	Pairs, Skipped, PairsWithMatch, Matches, BrutePanics, BothPanicked int
 	PrunedBySymbols, ByCallSites, ByEntryNodes           int
 }
 
@@ -456,6 +456,9 @@ func Run(r *vf.Run) {
 	patFile := filepath.Join(r.Scratch(), "patterns.json")
 	b, _ := json.Marshal(all)
 	os.WriteFile(patFile, b, 0o644)
+	if d := os.Getenv("C08_DUMP_PATTERNS"); d != "" { // development only
+		os.WriteFile(d, b, 0o644)
+	}
 
 	type job struct {
 		name, dir string
@@ -527,6 +530,7 @@ func Run(r *vf.Run) {
 				tot.PairsWithMatch += st.PairsWithMatch
 				tot.Matches += st.Matches
 				tot.BrutePanics += st.BrutePanics
+				tot.BothPanicked += st.BothPanicked
 				tot.PrunedBySymbols += st.PrunedBySymbols
 				tot.ByCallSites += st.ByCallSites
 				tot.ByEntryNodes += st.ByEntryNodes
@@ -547,6 +551,12 @@ func Run(r *vf.Run) {
 					// e.g. "(*sync/atomic.Pointer[string]).Store": the matcher compares
 					// full names and matches, the symbol index cannot resolve the name
 					key = "prefilter-missing-matches:symbol-names-method-of-instantiated-generic-type"
+				}
+				if va, _ := m["all_missing_are_alias_type_names"].(bool); va && kind == "missing" && filter == "symbol-index-rejected-package" {
+					// a Symbol naming a type, where the package refers to the type only through an
+					// alias declared elsewhere (os.FileMode = io/fs.FileMode): the matcher peels the
+					// alias and matches, the package filter finds no reference to the named package
+					key = "prefilter-missing-matches:type-symbol-reached-only-through-an-alias"
 				}
 				r.Violation(key,
 					fmt.Sprintf("pattern %s: code.Matches and matching every node disagree in %s (missing %v, extra %v; first missing at %v)", id, filepath.Base(filepath.Dir(p.Location.File)), m["missing"], m["extra"], m["first_missing_at"]), m)
@@ -575,6 +585,7 @@ func Run(r *vf.Run) {
 	r.Set("pairs_searched_via_root_call_sites", tot.ByCallSites)
 	r.Set("pairs_searched_via_entry_nodes", tot.ByEntryNodes)
 	r.Set("brute_force_match_panics_ignored", tot.BrutePanics)
+	r.Set("pairs_skipped_because_plain_matcher_and_Matches_both_panic", tot.BothPanicked)
 	for _, s := range []monitors.PatternSpec{intree[0], cfPats[3], valid[0], generated[0]} {
 		r.Sample(s, 4)
 	}
